@@ -470,3 +470,91 @@ func isReorgReturn(r *ssa.Return, errReorg *ssa.Global) bool {
 	}
 	return false
 }
+
+// liftBoolHelpers: cuts describe a scenario (the edges that contradict it are
+// cut; assumed gives the truth of conditions that are used as values rather
+// than branched on).  A boolean helper of the region that can only answer one
+// way in the scenario contributes the other arm of its call site to the cuts.
+func liftBoolHelpers(reg *Region, cuts *Cuts, assumed map[ssa.Value]bool) *Cuts {
+	funcs := reg.Funcs()
+	for i := len(funcs) - 1; i >= 1; i-- { // deepest helpers first
+		h := funcs[i]
+		cs, ok := reg.site[h].(*ssa.Call)
+		if !ok {
+			continue
+		}
+		nres := h.Signature.Results().Len()
+		for ri := 0; ri < nres; ri++ {
+			if isBoolType(h.Signature.Results().At(ri).Type()) {
+				liftBoolResult(reg, h, cs, ri, cuts, assumed)
+			}
+		}
+	}
+	return cuts
+}
+
+func liftBoolResult(reg *Region, h *ssa.Function, cs *ssa.Call, ri int, cuts *Cuts, assumed map[ssa.Value]bool) {
+	nres := h.Signature.Results().Len()
+	{
+		hc := &Cuts{Edges: cuts.Edges, Instrs: cuts.Instrs}
+		hc = hc.closeBoolPhis(h)
+		canT, canF := false, false
+		var pf *pathFacts
+		reach(entrySite(h), func(in ssa.Instruction) bool {
+			ret, isRet := in.(*ssa.Return)
+			if !isRet {
+				return false
+			}
+			vals := returnValues(ret)
+			if ri >= len(vals) {
+				return false
+			}
+			// with an error result: the other results of an error return are not looked at
+			if last := vals[len(vals)-1]; nres > 1 && isErrorType(last.Type()) {
+				if definitelyNonNilError(last, nil) {
+					return false
+				}
+				if pf == nil {
+					pf = newPathFacts(h)
+				}
+				if st := pf.At(ret); st == nil || st.knownNonNil(last) {
+					return false
+				}
+			}
+			for _, lv := range feasibleLeaves(h, vals[ri], hc) {
+				if k, isC := lv.(*ssa.Const); isC && k.Value != nil {
+					if k.Value.String() == "true" {
+						canT = true
+					} else {
+						canF = true
+					}
+					continue
+				}
+				if b, known := assumed[lv]; known {
+					if b {
+						canT = true
+					} else {
+						canF = true
+					}
+					continue
+				}
+				canT, canF = true, true
+			}
+			return false
+		}, hc)
+		var bv ssa.Value = cs
+		if nres > 1 {
+			bv = extractOf(cs, ri)
+		}
+		if bv == nil {
+			return
+		}
+		t, f := boolEdges(bv)
+		switch {
+		case canT && !canF:
+			cuts.addEdges(f)
+		case canF && !canT:
+			cuts.addEdges(t)
+		}
+	}
+}
